@@ -137,9 +137,13 @@ Section UtSetBridge.
   Lemma rep2_wfl l s : rep2 l s -> wfl l.
   Proof. intros R. eapply ul_rep_wfl. apply rep2_ul_rep. exact R. Qed.
 
-  Lemma mit_find_some {A} (ix : list (K * A)) k :
-    negb (mit_eqb (mit_find ix k) None) = match assoc k ix with Some _ => true | None => false end.
-  Proof. unfold mit_find. destruct (assoc k ix); reflexivity. Qed.
+  (* case analysis on the SEMANTIC scrutinee of `it = m_keyed_elements.find(k); if (it != end()) ...`: whether k is
+     in the map.  After it every comparison of the iterator with end() computes — whichever way round the source
+     writes it (it != end(), end() != it, !(it == end()), an early return on it == end(), the comparison
+     returned as a value, a named local for it or none) — and so does the literal machine's match on assoc. *)
+  Ltac key_cases k m A :=
+    cbv zeta; unfold mit_find; destruct (assoc k m) eqn:A;
+    cbn [mit_eqb negb andb orb]; cbv zeta.
 
   (* ---- do_find: bool, true = the optional has a value ---- *)
   Definition bo (o : option unit) : bool := match o with Some _ => true | None => false end.
@@ -149,8 +153,8 @@ Section UtSetBridge.
 
   Lemma g_do_find_ok (s : uml K V) k : g_do_find s k = Ok (s, bo (ul_find s k)).
   Proof.
-    unfold g_do_find, ul_find. rewrite mit_find_some.
-    destruct (assoc k (ul_map s)) as [[v tp]|] eqn:A; auto.
+    unfold g_do_find, ul_find. key_cases k (ul_map s) A; [|reflexivity].
+    match goal with |- context [match ?p with (_, _) => _ end] => destruct p end. reflexivity.
   Qed.
 
   (* ---- do_erase: the source erases the list node without reading its element; the literal machine looks
@@ -194,11 +198,10 @@ Section UtSetBridge.
 
   Lemma g_do_insert_update_ok (s : uml K V) k ex a : req (g_do_insert_update s k ex a) (ul_ins s k tt a ex).
   Proof.
-    unfold g_do_insert_update, ul_ins. rewrite mit_find_some. unfold mit_find.
-    destruct (assoc k (ul_map s)) as [e|] eqn:A.
-    - destruct (a_upd a); [|simpl; auto].
+    unfold g_do_insert_update, ul_ins. key_cases k (ul_map s) A.
+    - destruct (a_upd a); cbn [negb]; [|simpl; auto].
       callee (g_do_update_ok s k ex). unfold bind. crush; finish.
-    - destruct (a_ins a); [|simpl; auto].
+    - destruct (a_ins a); cbn [negb]; [|simpl; auto].
       callee (g_do_insert_ok s k ex A). unfold bind. crush; finish.
   Qed.
   (* ---- do_prune: the for loop against ul_prune_walk, then the range erase.
@@ -339,47 +342,56 @@ Section UtSetBridge.
     req (g_insert_range now s (strip l) a) (do p <- ul_do_prune s now; ul_ins_range (fst p) l a (now + ms (ul_ttl s))%Z 0).
   Proof.
     intros G. unfold g_insert_range. set (ex := (now + ms (ul_ttl s))%Z). prune_first s now G.
-    match goal with |- req (bind (foldM ?F _ _) _) _ =>
-      assert (Q : forall l t n, req (foldM F (strip l) (t, n)) (ul_ins_range t l a ex n)) end.
-    { clear. induction l as [|[[z k] []] r IH]; intros t n; simpl; auto.
-      callee (g_do_insert_update_ok t k ex a). unfold bind at 1 2 3.
-      destruct (g_do_insert_update t k _ a) as [[t1 b]|], (ul_ins t k tt a _) as [[t2 b2]|]; intros P; try contradiction; auto.
+    match goal with |- req (bind (foldM ?F _ _) _) _ => set (F0 := F) end.
+    assert (Q : forall l t n, req (foldM F0 (strip l) (t, n)) (ul_ins_range t l a ex n)).
+    { clear. induction l as [|[[z k] []] r IH]; intros t n; cbn [strip map foldM ul_ins_range fst snd]; [reflexivity|].
+      fold (strip r). unfold F0 at 1. cbv beta iota zeta.
+      callee (g_do_insert_update_ok t k ex a).
+      destruct (g_do_insert_update t k ex a) as [[t1 b]|], (ul_ins t k tt a ex) as [[t2 b2]|]; cbn [bind]; intros P; try contradiction; auto.
       inversion P; subst. destruct b2; cbn [bind]; apply IH. }
     specialize (Q l s1 0). revert Q.
     destruct (foldM _ _ _) as [[s' n']|]; cbn [bind]; auto.
   Qed.
 
-  Lemma g_erase_tail (s : uml K V) k : good s ->
-    req (let it := mit_find (ul_map s) k in
-         if negb (mit_eqb it None) then (do s1 <- g_do_erase s it; Ok (s1, true)) else Ok (s, false))
-        (ul_erase s k).
+  (* the two facts about one erase the proofs below use; neither mentions the shape of the generated `if` *)
+  Lemma ul_erase_absent (s : uml K V) k : assoc k (ul_map s) = None -> ul_erase s k = Ok (s, false).
+  Proof. intros A. unfold ul_erase. rewrite A. reflexivity. Qed.
+
+  Lemma g_erase_present (s : uml K V) k e : good s -> assoc k (ul_map s) = Some e ->
+    match g_do_erase s (Some k), ul_erase s k with
+    | Ok s1, Ok (s2, b) => s1 = s2 /\ b = true /\ good s2
+    | UB _, UB _ => True
+    | _, _ => False
+    end.
   Proof.
-    intros G. cbv zeta. unfold ul_erase. rewrite mit_find_some. unfold mit_find.
-    destruct (assoc k (ul_map s)) as [e|] eqn:A; [|simpl; auto].
-    callee (g_do_erase_ok s k (good_nodes s G)). unfold bind. crush; finish.
+    intros G A. pose proof (good_erase s k) as GE. revert GE. unfold ul_erase. rewrite A.
+    callee (g_do_erase_ok s k (good_nodes s G)).
+    destruct (g_do_erase s (Some k)) as [s1|], (ul_do_erase s k) as [s2|]; cbn [bind]; intros P GE; try contradiction; auto.
+    subst. repeat split; auto. eapply GE; eauto.
   Qed.
 
   Lemma g_erase_ok (s : uml K V) now k : good s ->
     req (g_erase now s k) (do p <- ul_do_prune s now; ul_erase (fst p) k).
-  Proof. intros G. unfold g_erase. prune_first s now G. apply (g_erase_tail s1 k); auto. Qed.
+  Proof.
+    intros G. unfold g_erase. prune_first s now G. key_cases k (ul_map s1) A.
+    - pose proof (g_erase_present s1 k _ ltac:(assumption) A) as P. revert P.
+      destruct (g_do_erase s1 (Some k)) as [t1|], (ul_erase s1 k) as [[t2 b]|]; cbn [bind req]; intros P; try contradiction; auto.
+      destruct P as (-> & -> & _). reflexivity.
+    - rewrite (ul_erase_absent s1 k A). cbn [bind req]. reflexivity.
+  Qed.
 
   Lemma g_erase_range_ok (s : uml K V) now l : good s ->
     req (g_erase_range now s l) (do p <- ul_do_prune s now; ul_erase_range (fst p) l 0).
   Proof.
     intros G. unfold g_erase_range. prune_first s now G.
-    match goal with |- req (bind (foldM ?F _ _) _) _ =>
-      assert (Q : forall l s n, good s -> req (foldM F l (s, n)) (ul_erase_range s l n)) end.
-    { clear. induction l as [|k r IH]; intros s n G; simpl; auto.
-      pose proof (g_erase_tail s k G) as P. cbv zeta in P. revert P.
-      pose proof (good_erase s k) as GE. revert GE.
-      destruct (ul_erase s k) as [[s2 b2]|]; intros GE.
-      - destruct (negb (mit_eqb (mit_find (ul_map s) k) None)).
-        + unfold bind at 1 2 3. destruct (g_do_erase s (mit_find (ul_map s) k)) as [s1|]; cbn [req]; intros P; try contradiction.
-          inversion P; subst. cbn [bind]. apply IH. eapply GE; eauto.
-        + cbn [req]. intros P. inversion P; subst. cbn [bind]. apply IH. eapply GE; eauto.
-      - destruct (negb (mit_eqb (mit_find (ul_map s) k) None)).
-        + unfold bind at 1 2 3. destruct (g_do_erase s (mit_find (ul_map s) k)) as [s1|]; cbn [req]; intros P; try contradiction. simpl. auto.
-        + cbn [req]. intros P. contradiction. }
+    match goal with |- req (bind (foldM ?F _ _) _) _ => set (F0 := F) end.
+    assert (Q : forall l s n, good s -> req (foldM F0 l (s, n)) (ul_erase_range s l n)).
+    { clear. induction l as [|k r IH]; intros s n G; cbn [foldM ul_erase_range]; [reflexivity|].
+      unfold F0 at 1. key_cases k (ul_map s) A.
+      - pose proof (g_erase_present s k _ G A) as P. revert P.
+        destruct (g_do_erase s (Some k)) as [t1|], (ul_erase s k) as [[t2 b]|]; cbn [bind req]; intros P; try contradiction; auto.
+        destruct P as (-> & -> & G2). apply IH. exact G2.
+      - rewrite (ul_erase_absent s k A). cbn [bind]. apply IH. exact G. }
     specialize (Q l s1 0 ltac:(assumption)). revert Q.
     destruct (foldM _ _ _) as [[s' n']|]; cbn [bind]; auto.
   Qed.
@@ -392,11 +404,11 @@ Section UtSetBridge.
     req (g_find_range now s l) (do p <- ul_do_prune s now; Ok (fst p, map (fun k => (k, bo (ul_find (fst p) k))) l)).
   Proof.
     intros G. unfold g_find_range. prune_first s now G.
-    match goal with |- req (bind (foldM ?F _ _) _) _ =>
-      assert (Q : forall l (s : uml K V) acc, foldM F l (s, acc) = Ok (s, acc ++ map (fun k => (k, bo (ul_find s k))) l)) end.
-    { clear. induction l as [|k r IH]; intros s acc; simpl.
+    match goal with |- req (bind (foldM ?F _ _) _) _ => set (F0 := F) end.
+    assert (Q : forall l (s : uml K V) acc, foldM F0 l (s, acc) = Ok (s, acc ++ map (fun k => (k, bo (ul_find s k))) l)).
+    { clear. induction l as [|k r IH]; intros s acc; cbn [foldM map].
       - rewrite app_nil_r. auto.
-      - rewrite g_do_find_ok. cbn [bind]. rewrite IH, <- app_assoc. reflexivity. }
+      - unfold F0 at 1. cbv beta iota zeta. rewrite g_do_find_ok. cbn [bind]. rewrite IH, <- app_assoc. reflexivity. }
     rewrite Q. simpl. auto.
   Qed.
 
@@ -404,12 +416,12 @@ Section UtSetBridge.
     req (g_find_range_fill now s l) (do p <- ul_do_prune s now; Ok (fst p, map (fun k => (k, bo (ul_find (fst p) k))) (map fst l))).
   Proof.
     intros G. unfold g_find_range_fill. prune_first s now G.
-    match goal with |- req (bind (foldM ?F _ _) _) _ =>
-      assert (Q : forall (l : list (K * bool)) (s : uml K V) acc,
-                 foldM F l (s, acc) = Ok (s, acc ++ map (fun k => (k, bo (ul_find s k))) (map fst l))) end.
-    { clear. induction l as [|[k ov] r IH]; intros s acc; simpl.
+    match goal with |- req (bind (foldM ?F _ _) _) _ => set (F0 := F) end.
+    assert (Q : forall (l : list (K * bool)) (s : uml K V) acc,
+                 foldM F0 l (s, acc) = Ok (s, acc ++ map (fun k => (k, bo (ul_find s k))) (map fst l))).
+    { clear. induction l as [|[k ov] r IH]; intros s acc; cbn [foldM map fst].
       - rewrite app_nil_r. auto.
-      - rewrite g_do_find_ok. cbn [bind]. rewrite IH, <- app_assoc. reflexivity. }
+      - unfold F0 at 1. cbv beta iota zeta. rewrite g_do_find_ok. cbn [bind]. rewrite IH, <- app_assoc. reflexivity. }
     rewrite Q. simpl. auto.
   Qed.
 
